@@ -19,16 +19,23 @@ def gen_file(rng, nlines, *, bad_rate=0.0, bad_at=(), nfeat=3, card=(2, 5, 9)):
         lab = rng.randrange(2)
         feats = [str((lab + rng.randrange(card[i % len(card)])) % card[i % len(card)]) for i in range(nfeat)]
         if not bad:
-            lines.append(','.join([str(p)] + feats + [str(lab)]) + '\n')
+            if nfeat >= 2 and rng.random() < 0.03:
+                # a well-formed row whose quoted cell holds the delimiter (more raw delimiters than fields)
+                lines.append(','.join([str(p), f'"{feats[0]},{feats[0]}"'] + feats[1:] + [str(lab)]) + '\n')
+            else:
+                lines.append(','.join([str(p)] + feats + [str(lab)]) + '\n')
             kinds.append('good')
         else:
-            k = rng.randrange(4)
+            k = rng.randrange(5 if nfeat >= 2 else 4)
             if k == 0:
                 lines.append(','.join([str(p)] + feats[:-1]) + '\n')            # too few fields
             elif k == 1:
                 lines.append(','.join([str(p)] + feats + [str(lab), 'extra']) + '\n')   # too many
             elif k == 2:
                 lines.append('\n')                                               # empty line
+            elif k == 4:
+                # too few fields, but as many raw delimiters as a well-formed row (a quoted cell holds one)
+                lines.append(','.join([str(p), f'"{feats[0]},{feats[1]}"'] + feats[2:] + [str(lab)]) + '\n')
             else:
                 lines.append(f'{p},"a,b"\n')                                    # quoted, too few
             kinds.append('bad')
@@ -49,7 +56,7 @@ def to_trace(events, final=None, written=None):
             pid = e.get('id')
             out.append({'e': 'parse', 'nf': e['nf'], 'pos': int(pid) if isinstance(pid, str) and pid.isdigit() else -1})
         elif e['e'] == 'batch':
-            out.append({'e': 'batch', 'k': e['k'], 'ids': [int(i) for i in e['ids']], 'trip': [[t[0], t[1], t[2]] for t in (e['trip'] or [])]})
+            out.append({'e': 'batch', 'k': e['k'], 'ids': [int(i) if str(i).isdigit() else -1 for i in e['ids']], 'trip': [[t[0], t[1], t[2]] for t in (e['trip'] or [])]})
         elif e['e'] == 'checkpoint':
             out.append({'e': 'checkpoint', 'k': e['k'], 'table': e['table'] or []})
         elif e['e'] == 'invalid':
